@@ -73,16 +73,17 @@ Definition pub_agree (t : ext_task) (N M : pint) : Prop :=
 Theorem ext_stable_public_part t P G th FI M :
   is_tight P = true ->
   (forall r h, In r P -> head_pred (rhead r) = Some h -> ~ In h (task_inputs t)) ->
+  outputs_occur_in t P ->
   TauStar.tau_star P = Some G -> translate t (task_placeholders t) P = Some th ->
   has_private_recursion P (private_predicates (ug_public_predicates (et_user_guide t)) (program_preds P)) = false ->
   tvalid FI M (assumptions_of (control_translate (ug_public_predicates (et_user_guide t)) th)) ->
   ((exists N, pub_agree t N M /\ ext_stable_full t FI N P) <-> ext_stable_full t FI M P).
 Proof.
-  intros Ht Hins Hts Htr Hpr HM. split; [|intros H; exists M; split; [intros q _ d _; tauto|exact H]].
+  intros Ht Hins Hout Hts Htr Hpr HM. split; [|intros H; exists M; split; [intros q _ d _; tauto|exact H]].
   intros [N [Hpub HN]].
   set (public := ug_public_predicates (et_user_guide t)) in *.
   set (priv := private_predicates public (program_preds P)) in *.
-  pose proof (translate_meaning_full fuel t P G th Ht Hins Hts Htr FI) as Hmean.
+  pose proof (translate_meaning_full fuel t P G th Ht Hins Hout Hts Htr FI) as Hmean.
   apply Hmean in HN. apply Hmean.
   (* N is supported on the private predicates as well *)
   assert (HNa : tvalid FI N (assumptions_of (control_translate public th))).
@@ -104,7 +105,7 @@ Proof.
     assert (Hq : In (mkpred p (List.length a)) public \/ In (mkpred p (List.length a)) priv).
     { destruct Hin as [Hin|Hin].
       - destruct (in_dec pred_dec (mkpred p (List.length a)) public) as [Hp|Hp]; [left; exact Hp|right; apply Hin_priv; auto].
-      - left. unfold public, ug_public_predicates. apply in_iset_extend. left. exact Hin. }
+      - left. exact Hin. }
     destruct Hq as [Hq|Hq]; [apply (Hpub _ Hq a eq_refl)|apply (Hagp _ Hq a eq_refl)]. }
   apply (translated_pagree t P G th FI N M Hts Htr Hag). exact HN.
 Qed.
@@ -120,6 +121,7 @@ Theorem C02_behaviour_proof t L w pbs lft rgt :
   external_decompose_full fuel t = XOk w pbs ->
   is_tight L = true -> is_tight (et_program t) = true ->
   tl t L = Some lft -> tr t = Some rgt ->
+  outputs_occur t ->
   (forall vt, task_validated tau_star_total completion (simp_classic_total fuel) t = Some vt -> validated_no_clash vt) ->
   forall FI M,
     tvalid FI M (map (fun a => rp_formula (task_placeholders t) (an_formula a)) (filter is_assumption (ug_formulas (et_user_guide t)))) ->
@@ -132,8 +134,9 @@ Theorem C02_behaviour_proof t L w pbs lft rgt :
       ext_stable_full t FI (reindex (task_mapping t) M) (et_program t) /\
       ~ exists N, pub_agree t N M /\ ext_stable_full t FI N L)).
 Proof.
-  intros Hs Ho Hfull HtL HtR El Er Hn FI M Hug Hal Har.
-  rewrite (C02_full_proof fuel t L w pbs lft rgt Hs Ho Hfull HtL HtR El Er Hn FI M Hug Hal Har).
+  intros Hs Ho Hfull HtL HtR El Er Hoc Hn FI M Hug Hal Har.
+  rewrite (C02_full_proof fuel t L w pbs lft rgt Hs Ho Hfull HtL HtR El Er Hoc Hn FI M Hug Hal Har).
+  destruct Hoc as [HoL HoR]. rewrite Hs in HoL.
   destruct (full_ok_inv fuel t w pbs Hfull) as [[w0 Hv] [_ [[GR HGR] HGL]]].
   destruct (HGL L Hs) as [GL HGL'].
   destruct (validate_conditions _ _ t w0 Hv) as [_ [Hpr [Hhead _]]].
@@ -146,7 +149,7 @@ Proof.
   injection Er as <-.
   unfold task_spec_private in HpL. rewrite Hs in HpL.
   assert (EL : (exists N, pub_agree t N M /\ ext_stable_full t FI N L) <-> ext_stable_full t FI M L).
-  { apply (ext_stable_public_part t L GL thl FI M HtL (no_input_in_head t L HhL) HGL' Etl HpL Hal). }
+  { apply (ext_stable_public_part t L GL thl FI M HtL (no_input_in_head t L HhL) HoL HGL' Etl HpL Hal). }
   assert (Harr : tvalid FI (reindex (task_mapping t) M)
                    (assumptions_of (control_translate (ug_public_predicates (et_user_guide t)) thr))).
   { assert (E : assumptions_of (map (rename_predicates_annot (task_mapping t))
@@ -158,7 +161,7 @@ Proof.
     rewrite E, tvalid_rename in Har. exact Har. }
   assert (ER : (exists N, pub_agree t N (reindex (task_mapping t) M) /\ ext_stable_full t FI N (et_program t)) <->
                ext_stable_full t FI (reindex (task_mapping t) M) (et_program t)).
-  { apply (ext_stable_public_part t (et_program t) GR thr FI _ HtR (no_input_in_head t _ HhR) HGR Etr HpR Harr). }
+  { apply (ext_stable_public_part t (et_program t) GR thr FI _ HtR (no_input_in_head t _ HhR) HoR HGR Etr HpR Harr). }
   rewrite EL, ER. reflexivity.
 Qed.
 (* a countermodel of an emitted problem satisfies all stable premises: the user-guide assumptions
@@ -185,6 +188,7 @@ Theorem C02_countermodel_proof t L w pbs lft rgt :
   external_decompose_full fuel t = XOk w pbs ->
   is_tight L = true -> is_tight (et_program t) = true ->
   tl t L = Some lft -> tr t = Some rgt ->
+  outputs_occur t ->
   (forall vt, task_validated tau_star_total completion (simp_classic_total fuel) t = Some vt -> validated_no_clash vt) ->
   forall FI M,
     refutes_some FI M pbs ->
@@ -195,7 +199,7 @@ Theorem C02_countermodel_proof t L w pbs lft rgt :
      ext_stable_full t FI (reindex (task_mapping t) M) (et_program t) /\
      ~ exists N, pub_agree t N M /\ ext_stable_full t FI N L).
 Proof.
-  intros Hs Ho Hfull HtL HtR El Er Hn FI M Href.
+  intros Hs Ho Hfull HtL HtR El Er Hoc Hn FI M Href.
   destruct (full_ok_inv fuel t w pbs Hfull) as [_ [Hd _]].
   destruct (external_validated is_tight has_private_recursion tau_star_total completion (simp_classic_total fuel)
               t L w pbs Hs Ho Hd) as [lft' [rgt' [uga [w' [El' [Er' [Eu [Hv Htv]]]]]]]].
@@ -208,6 +212,6 @@ Proof.
     apply rename_translated, control_translate_translated. }
   destruct (refuted_stable_premises _ w' pbs Hv eq_refl (Hn _ Htv) Tl Tr FI M Href) as [Hug [Hal Har]].
   cbn in Hug, Hal, Har. rewrite Eu in Hug.
-  exact (proj1 (C02_behaviour_proof t L w pbs lft rgt Hs Ho Hfull HtL HtR El Er Hn FI M Hug Hal Har) Href).
+  exact (proj1 (C02_behaviour_proof t L w pbs lft rgt Hs Ho Hfull HtL HtR El Er Hoc Hn FI M Hug Hal Har) Href).
 Qed.
 End Behaviour.
